@@ -17,9 +17,9 @@ def config(tier):
         "hashseeds": [0, 1] if q else [0, 1, 2, 3, 4, 5, 6, 7],
         "families": ["G1", "G2", "W"],
         "mc": [{"module": "MCLimitFanin", "cfg": "MCLimitFanin", "workers": 4, "timeout": 900},
-               {"module": "MCLoops", "cfg": "MCLimitFanout", "workers": 4, "timeout": 900},
-               {"module": "MCLoops", "cfg": "MCInsertRegs", "workers": 4, "timeout": 900},
-               {"module": "MCFas", "cfg": "MCFas", "workers": 4, "timeout": 900}],
+               {"module": "MCLoops", "cfg": "MCLimitFanout", "workers": 4, "timeout": 3600},
+               {"module": "MCLoops", "cfg": "MCInsertRegs", "workers": 4, "timeout": 3600, "env": {} if q else {"MC_FULL": "1"}},
+               {"module": "MCFas", "cfg": "MCFas", "workers": 4 if q else 8, "timeout": 5400, "env": {} if q else {"MC_FULL": "1"}}],
         "shards": 8 if q else 16,
         "negctl": 12,
     }
